@@ -299,22 +299,81 @@ fn repairs() -> &'static [(&'static str, regex::Regex, &'static str)] {
     })
 }
 
-fn cause_by_repair(input: &str, strict: &qg::UserInputAst) -> Option<(&'static str, String)> {
-    for (name, re, to) in repairs() {
-        let repaired = re.replace_all(input, *to);
-        if repaired == input {
+const ADJACENCY: &str = "lenient-needs-whitespace-between-adjacent-operands";
+
+fn strict_same(text: &str, strict: &qg::UserInputAst) -> bool {
+    matches!(guarded(|| qg::parse_query(text)), Ok(Ok(s2)) if &s2 == strict)
+}
+
+fn lenient_agrees(text: &str, strict: &qg::UserInputAst) -> bool {
+    matches!(guarded(|| qg::parse_query_lenient(text)), Ok((l2, e2)) if e2.is_empty() && &l2 == strict)
+}
+
+/// adds a blank at every place where the strict grammar does not care (never next to existing
+/// whitespace, never just inside a range / set bracket)
+fn separate_operands(text: &str, strict: &qg::UserInputAst) -> String {
+    if text.chars().count() > 400 {
+        return text.to_string();
+    }
+    let mut cur: Vec<char> = text.chars().collect();
+    let mut i = 1;
+    while i < cur.len() {
+        let (p, n) = (cur[i - 1], cur[i]);
+        if !p.is_whitespace() && !n.is_whitespace() && !"[{".contains(p) && !"]}".contains(n) {
+            let mut cand = cur.clone();
+            cand.insert(i, ' ');
+            let t: String = cand.iter().collect();
+            if strict_same(&t, strict) {
+                cur = cand;
+                i += 1;
+            }
+        }
+        i += 1;
+    }
+    cur.into_iter().collect()
+}
+
+/// applies the given repairs (by index; 3 = operand separation) as far as they keep the strict tree
+fn apply_repairs(input: &str, strict: &qg::UserInputAst, which: &[usize]) -> String {
+    let mut text = input.to_string();
+    for (k, (_, re, to)) in repairs().iter().enumerate() {
+        if !which.contains(&k) {
             continue;
         }
-        let Ok(Ok(s2)) = guarded(|| qg::parse_query(&repaired)) else { continue };
-        if &s2 != strict {
-            continue;
-        }
-        let Ok((l2, e2)) = guarded(|| qg::parse_query_lenient(&repaired)) else { continue };
-        if e2.is_empty() && &l2 == strict {
-            return Some((name, repaired.into_owned()));
+        let r = re.replace_all(&text, *to).into_owned();
+        if r != text && strict_same(&r, strict) {
+            text = r;
         }
     }
-    None
+    if which.contains(&3) {
+        text = separate_operands(&text, strict);
+    }
+    text
+}
+
+/// the repairs without which the two parsers keep disagreeing (leave-one-out over the full repair)
+fn causes_by_repair(input: &str, strict: &qg::UserInputAst) -> Option<(Vec<&'static str>, String)> {
+    let all = [0usize, 1, 2, 3];
+    let full = apply_repairs(input, strict, &all);
+    if full == input || !lenient_agrees(&full, strict) {
+        return None;
+    }
+    let name = |k: usize| if k == 3 { ADJACENCY } else { repairs()[k].0 };
+    let mut causes = vec![];
+    for k in all {
+        let rest: Vec<usize> = all.iter().copied().filter(|x| *x != k).collect();
+        let without = apply_repairs(input, strict, &rest);
+        if without == full {
+            continue;
+        }
+        if !lenient_agrees(&without, strict) {
+            causes.push(name(k));
+        }
+    }
+    if causes.is_empty() {
+        return None;
+    }
+    Some((causes, full))
 }
 
 /// grammar-level agreement on one input; returns the violation (signature, detail) if any
@@ -323,9 +382,9 @@ fn grammar_agreement(
     strict: &qg::UserInputAst,
     lenient: &qg::UserInputAst,
     lerrs: &[qg::LenientError],
-) -> Option<(String, Value)> {
+) -> Vec<(String, Value)> {
     if lerrs.is_empty() && strict == lenient {
-        return None;
+        return vec![];
     }
     let symptom = if !lerrs.is_empty() {
         format!("lenient-error:{}", lenient_error_class(&lerrs[0].message))
@@ -335,11 +394,12 @@ fn grammar_agreement(
     let mut detail = json!({"witness": witness(input), "strict_ast": clip(format!("{strict:?}")),
         "lenient_ast": clip(format!("{lenient:?}")), "symptom": symptom,
         "lenient_errors": lerrs.iter().take(8).map(|e| format!("{}@{}", e.message, e.pos)).collect::<Vec<_>>()});
-    if let Some((cause, repaired)) = cause_by_repair(input, strict) {
+    if let Some((causes, repaired)) = causes_by_repair(input, strict) {
         detail["agrees_after_rewriting_to"] = json!(clip(repaired));
-        return Some((format!("agree:grammar:strict-ok-{cause}"), detail));
+        detail["all_causes_in_this_input"] = json!(causes);
+        return causes.into_iter().map(|c| (format!("agree:grammar:strict-ok-{c}"), detail.clone())).collect();
     }
-    Some((format!("agree:grammar:strict-ok-{symptom}"), detail))
+    vec![(format!("agree:grammar:strict-ok-{symptom}"), detail)]
 }
 
 #[derive(Default)]
@@ -402,7 +462,7 @@ fn check_totality(input: &str, rep: &mut Report) -> Outcome {
     }
     if let (Some(sast), Some((last, lerrs))) = (&strict, &lenient) {
         out.grammar_strict_ok = true;
-        if let Some((sig, detail)) = grammar_agreement(input, sast, last, lerrs) {
+        for (sig, detail) in grammar_agreement(input, sast, last, lerrs) {
             grammar_disagrees = true;
             rep.violation(sig, detail);
         }
